@@ -98,6 +98,13 @@ def check_vector(v):
     cmp("track[stranded intervals]", v["understr"], lambda: [[int(x) for x in np.asarray(r.to_array() if hasattr(r, "to_array") else r).tolist()] for r in track[gi]])
     cmp("extract_intervals(stranded)", v["understr"],
         lambda: [[int(x) for x in np.asarray(r.to_array() if hasattr(r, "to_array") else r).tolist()] for r in track.extract_intervals(gi, stranded=True)])
+    # intervals derived from stranded entries stay stranded: values under the clipped entries and under windows around stranded locations
+    vals = lambda rows: [[int(x) for x in np.asarray(r.to_array() if hasattr(r, "to_array") else r).tolist()] for r in rows]
+    cmp("track[stranded intervals.clip()]", v["underclip"], lambda: vals(track[g.get_intervals(table(stick), stranded=True).clip()]))
+    from bionumpy.genomic_data.genomic_intervals import GenomicLocation
+    sloc = GenomicLocation.from_fields(g.get_genome_context(), [names[e["c"] - 1] for e in es], [e["s"] for e in es], [e["st"] for e in es])
+    for f in (0, 1):
+        cmp("track[stranded locations.get_windows()]", v["underwin"][f], lambda: vals(track[sloc.get_windows(flank=f)]), flank=f)
     # the same track evaluated lazily, one chromosome at a time (a stream of bedGraph chunks), under in-memory intervals that are grouped by
     # chromosome in genome order (in whatever order within a chromosome): row i belongs to interval i
     if all(a["c"] <= b["c"] for a, b in zip(es, es[1:])):
